@@ -298,7 +298,7 @@ def configStep (P : Params) (st : State) : State :=
 def processTree (P : Params) (fuel : Nat) (st : State) : Outcome :=
   let st1 := configStep P st
   let total := notDoneCount st1.nodes
-  if total = 0 then .ok st1   -- early return: `clean_files` is skipped
+  if total = 0 then .ok (cleanFiles st1)   -- early return, after `clean_files` (fix of F11)
   else
     match workLoop P total fuel st1 with
     | .ok st2 => .ok (cleanFiles st2)
@@ -404,8 +404,6 @@ inductive Region where
   /-- `remove_source` on a directory: indices of the removed nodes stay in
   `external_dependencies`; dependants of files below the directory are not restarted -/
   | F10
-  /-- `process` returns before `clean_files` when no item is pending -/
-  | F11
   /-- a removed source was created again before `clean_files` ran: its fresh output is deleted -/
   | F11b
   /-- a file is created whose absence shaped the result of a finished item (failed `require`):
@@ -467,8 +465,7 @@ def failsOverOutput (P : Params) (st : State) : Bool :=
 
 /-- the checks on the state after the configuration step -/
 def regionAfterConfig (P : Params) (st1 : State) : Option Region :=
-  if notDoneCount st1.nodes == 0 then (if st1.removeFiles.isEmpty then none else some .F11)
-  else if outputClash st1 then some .F11b
+  if outputClash st1 then some .F11b
   else if outputUnder st1 then some .X
   else if failsOverOutput P st1 then some .E
   else none
